@@ -6,8 +6,13 @@ case["type"] == "send": 1-6 kickers call kiq() concurrently against a scripted b
 
 Log entry: [who, event...], who = index of the message (taken from the asyncio task's name, or from the closure
 for things that run in a worker thread).  Nothing here predicts anything: the model lives in Coq."""
+import __future__
+import abc
 import asyncio
 import dataclasses
+import datetime
+import decimal
+import enum
 import gc
 import io
 import json
@@ -15,8 +20,13 @@ import logging
 import random
 import threading
 import time as time_mod
+import typing
+import uuid
 from concurrent.futures import Executor, ThreadPoolExecutor
 from concurrent.futures import Future as CFuture
+
+import pydantic
+import typing_extensions
 
 import taskiq.message as tmsg
 import taskiq.receiver.receiver as rmod
@@ -861,11 +871,229 @@ def task_name(msgs, i):
 SIG_SRC = {
     # parameter lists that differ from the plain one without touching the dependencies: an extra positional parameter
     # with a default, a keyword-only one, a return annotation / another annotation of the dependency parameter
-    "extra": ("%(d)sextra=0", ""),
-    "kwonly": ("%(d)s*, opt=None", ""),
-    "annot": ("%(d)s", " -> int"),
-    "varkw": ("%(d)s**options", ""),
+    # (positional extras, keyword-only extras, **name, return annotation)
+    "extra": (["extra=0"], [], None, ""),
+    "kwonly": ([], ["opt=None"], None, ""),
+    "annot": ([], [], None, " -> int"),
+    "varkw": ([], [], "**options", ""),
 }
+
+
+# ------------------------------------------------------------------------------------- annotated task parameters
+# What the annotations of a task function's parameters can be (M["params"], pipeline_lib.gen_params).  The receiver hands
+# every annotated parameter that has a value in the message to pydantic (taskiq.receiver.params_parser.parse_params ->
+# taskiq.compat.parse_obj_as); whatever the annotation, a value that cannot be converted is passed on as it was sent.
+# Everything below is ordinary application code: classes a task module would define, typing constructs it would use.
+class Payload(typing.TypedDict):
+    user_id: int
+    amount: int
+
+
+class PartialPayload(typing.TypedDict, total=False):
+    a: int
+    b: str
+
+
+class NestedPayload(typing.TypedDict):
+    inner: Payload
+    tag: str
+
+
+class ReqPayload(typing.TypedDict):
+    a: typing.Required[int]
+    b: typing.NotRequired[str]
+
+
+class ExtPayload(typing_extensions.TypedDict):
+    a: int
+
+
+class Runner(typing.Protocol):
+    def run(self) -> int: ...
+
+
+@typing.runtime_checkable
+class CheckedRunner(typing.Protocol):
+    def run(self) -> int: ...
+
+
+UserId = typing.NewType("UserId", int)
+TVar = typing.TypeVar("TVar")
+
+
+class PlainClass:
+    """a class pydantic knows nothing about: no schema, the value is passed on as sent"""
+
+
+class Model(pydantic.BaseModel):
+    a: int
+    b: str = "x"
+
+
+class Box(pydantic.BaseModel, typing.Generic[TVar]):
+    item: TVar
+
+
+class PlainBox(typing.Generic[TVar]):
+    pass
+
+
+@dataclasses.dataclass
+class Point:
+    a: int
+    b: str = "x"
+
+
+class Color(enum.Enum):
+    RED = "red"
+    BLUE = "blue"
+
+
+class Level(enum.IntEnum):
+    ONE = 1
+    TWO = 2
+
+
+class Pair(typing.NamedTuple):
+    x: int
+    y: str
+
+
+def _int_schema(cls, source, handler):
+    from pydantic_core import core_schema
+    return core_schema.int_schema()
+
+
+class _MetaAlways(type):
+    def __instancecheck__(cls, obj):
+        return True
+
+
+class _MetaNever(type):
+    def __instancecheck__(cls, obj):
+        return False
+
+
+class _MetaRefuses(type):
+    def __instancecheck__(cls, obj):
+        raise TypeError("%s does not support instance checks" % cls.__name__)
+
+
+class Everything(metaclass=_MetaAlways):
+    """isinstance(x, Everything) is True for any x; validated as an int"""
+    __get_pydantic_core_schema__ = classmethod(_int_schema)
+
+
+class Nothing(metaclass=_MetaNever):
+    __get_pydantic_core_schema__ = classmethod(_int_schema)
+
+
+class Unchecked(metaclass=_MetaRefuses):
+    """a class that refuses isinstance() the way TypedDict classes and plain Protocols do; validated as an int"""
+    __get_pydantic_core_schema__ = classmethod(_int_schema)
+
+
+class Number(abc.ABC):
+    """an abstract base class with int registered as a virtual subclass; validated as an int"""
+    __get_pydantic_core_schema__ = classmethod(_int_schema)
+
+
+Number.register(int)
+
+ANNOT = {
+    "int": int, "str": str, "float": float, "bool": bool, "bytes": bytes, "list": list, "dict": dict,
+    "Any": typing.Any, "object": object, "None": None, "TypeVar": TVar, "Type[int]": typing.Type[int],
+    "Callable": typing.Callable[[], int],
+    "Optional[int]": typing.Optional[int], "Union[int,str]": typing.Union[int, str], "int|None": int | None,
+    "List[int]": typing.List[int], "list[int]": list[int], "Dict[str,int]": typing.Dict[str, int],
+    "Tuple[int,str]": typing.Tuple[int, str], "Set[int]": typing.Set[int], "FrozenSet[int]": typing.FrozenSet[int],
+    "Sequence[int]": typing.Sequence[int], "Mapping[str,int]": typing.Mapping[str, int],
+    "List[Dict[str,int]]": typing.List[typing.Dict[str, int]],
+    "Optional[List[Optional[int]]]": typing.Optional[typing.List[typing.Optional[int]]],
+    "TypedDict": Payload, "TypedDict(total=False)": PartialPayload, "TypedDict(nested)": NestedPayload,
+    "TypedDict(Required/NotRequired)": ReqPayload, "typing_extensions.TypedDict": ExtPayload,
+    "List[TypedDict]": typing.List[Payload], "Optional[TypedDict]": typing.Optional[Payload],
+    "Protocol": Runner, "Protocol(runtime_checkable)": CheckedRunner,
+    "NewType": UserId, "Literal[str]": typing.Literal["a", "b"], "Literal[int]": typing.Literal[1, 2],
+    "Annotated[int,str]": typing.Annotated[int, "meta"],
+    "Annotated[int,Field]": typing.Annotated[int, pydantic.Field(gt=0)],
+    "Annotated[int,dict]": typing.Annotated[int, {"unit": "s"}],
+    "Annotated[TypedDict,str]": typing.Annotated[Payload, "meta"],
+    "plain-class": PlainClass, "BaseModel": Model, "BaseModel[int](generic)": Box[int], "plain-generic[int]": PlainBox[int],
+    "dataclass": Point, "Enum": Color, "IntEnum": Level, "NamedTuple": Pair,
+    "datetime": datetime.datetime, "date": datetime.date, "timedelta": datetime.timedelta, "UUID": uuid.UUID,
+    "Decimal": decimal.Decimal,
+    "metaclass(__instancecheck__ always True)": Everything, "metaclass(__instancecheck__ always False)": Nothing,
+    "metaclass(__instancecheck__ raises)": Unchecked, "ABC(int registered)": Number,
+    # forward references: the annotation is the STRING, resolved by typing.get_type_hints in the function's globals
+    "'int'": "int", "'Payload'(TypedDict)": "Payload", "'List[Payload]'": "typing.List[Payload]",
+    "'Optional[Runner]'(Protocol)": "typing.Optional[Runner]",
+}
+# the global names the annotations (written as strings / under `from __future__ import annotations`) are resolved in
+ANNOT_NS = dict(typing=typing, Payload=Payload, Runner=Runner)
+
+
+def fresh_annotation(kind):
+    """a NEW class per task function (a class defined inside a factory / a module reloaded): nothing process-wide that is
+    keyed by the annotation (taskiq.compat's cached type adapters) has seen it before"""
+    if kind == "TypedDict":
+        return typing.TypedDict("Payload", {"user_id": int, "amount": int})
+    if kind == "TypedDict(total=False)":
+        return typing.TypedDict("PartialPayload", {"a": int, "b": str}, total=False)
+    if kind == "Protocol":
+        return type("Runner", (typing.Protocol,), {"run": lambda self: 0})
+    if kind == "BaseModel":
+        return pydantic.create_model("Model", a=(int, ...), b=(str, "x"))
+    if kind == "dataclass":
+        return dataclasses.make_dataclass("Point", [("a", int), ("b", str, "x")])
+    if kind == "metaclass(__instancecheck__ raises)":
+        return _MetaRefuses("Unchecked", (), {"__get_pydantic_core_schema__": classmethod(_int_schema)})
+    if kind == "NewType":
+        return typing.NewType("UserId", int)
+    return ANNOT[kind]
+
+
+def call_args(M):
+    """(args, kwargs) message M carries for the parameters of its task function (M["params"]["list"], in order; by = pos:
+    positional | kw / kwonly: by keyword | star: further positional values taken by *rest | absent: not sent)"""
+    args, kwargs = [], {}
+    for k, p in enumerate((M.get("params") or {}).get("list") or []):
+        if p["by"] == "pos":
+            args.append(p["val"])
+        elif p["by"] == "star":
+            args.extend(p["val"])
+        elif p["by"] in ("kw", "kwonly"):
+            kwargs["k%d" % k if p["by"] == "kwonly" else "p%d" % k] = p["val"]
+    return args, kwargs
+
+
+def param_sources(i, M, ns):
+    """source text of the message parameters of M's function: (positional, *rest or None, keyword-only, names); the
+    annotation objects go into the function's globals `ns` as A<k>"""
+    pos, star, kwo, names = [], None, [], []
+    P = M.get("params") or {}
+    for k, p in enumerate(P.get("list") or []):
+        a = fresh_annotation(p["ann"]) if p.get("fresh") else ANNOT[p["ann"]]
+        if isinstance(a, str):
+            ann = repr(a)                   # a forward reference written by hand
+        else:
+            ns["A%d" % k] = a
+            ann = "A%d" % k
+        if p["by"] == "star":
+            star = "*rest: %s" % ann
+            names.append("rest")
+        elif p["by"] == "kwonly":
+            kwo.append("k%d: %s = None" % (k, ann))
+            names.append("k%d" % k)
+        else:
+            pos.append("p%d: %s%s" % (k, ann, "" if p["by"] == "pos" and not p.get("default") else " = None"))
+            names.append("p%d" % k)
+    return pos, star, kwo, names
+
+
+def function_got(i, *values):
+    """(evidence only) the type names of the values the task function of message i was called with"""
+    CUR.setdefault("got", []).append([i] + [type(v).__name__ for v in values])
 
 
 def make_task(broker, i, M, loop, name=None, group=None):
@@ -939,13 +1167,32 @@ def make_task(broker, i, M, loop, name=None, group=None):
     if group is not None:
         dep = CUR.setdefault("group_dep", {}).setdefault(group, dep)
     sig = M.get("sig")
-    if sig:
-        params, ret = SIG_SRC[sig]
-        params = params % {"d": "" if M["dep"] == "none" else "d: int = TaskiqDepends(dep), "}
-        src = "%sdef fn(%s)%s:\n    return %s\n" % ("async " if M["style"] == "async" else "", params.rstrip(", "), ret,
-                                                   "await abody()" if M["style"] == "async" else "sbody()")
-        ns = {"abody": abody, "sbody": sbody, "TaskiqDepends": TaskiqDepends, "dep": dep, "__name__": __name__}
-        exec(src, ns)                        # noqa: S102 (a function definition of the harness' own making)
+    P = M.get("params") or {}
+    if sig or P:
+        # the parameter list is written out: message parameters with their annotations (M["params"]), the dependency, the
+        # extras of M["sig"].  With a *rest parameter the dependency is a keyword-only parameter (a positional one would
+        # swallow the first extra value)
+        ns = {"abody": abody, "sbody": sbody, "TaskiqDepends": TaskiqDepends, "dep": dep, "__name__": __name__,
+              "got": function_got, "I": i}
+        ns.update(ANNOT_NS)
+        xpos, xkwo, varkw, ret = SIG_SRC[sig] if sig else ([], [], None, "")
+        pos, star, kwo, names = param_sources(i, M, ns)
+        if P.get("ret"):
+            ns["R"] = ANNOT[P["ret"]]
+            ret = " -> %s" % (repr(ns["R"]) if isinstance(ns["R"], str) else "R")
+        d = [] if M["dep"] == "none" else ["d: int = TaskiqDepends(dep)"]
+        parts = pos + ([] if star else d) + xpos
+        if star:
+            parts += [star] + d
+        elif kwo or xkwo:
+            parts.append("*")
+        parts += kwo + xkwo + ([varkw] if varkw else [])
+        src = "%sdef fn(%s)%s:\n%s    return %s\n" % (
+            "async " if M["style"] == "async" else "", ", ".join(parts), ret,
+            "    got(I, %s)\n" % ", ".join(names) if names else "",
+            "await abody()" if M["style"] == "async" else "sbody()")
+        flags = __future__.annotations.compiler_flag if P.get("future") else 0
+        exec(compile(src, "<task function of message %d>" % i, "exec", flags=flags, dont_inherit=True), ns)  # noqa: S102
         fn = ns["fn"]
     elif M["style"] == "async":
         if M["dep"] == "none":
@@ -984,8 +1231,9 @@ def make_payload(broker, i, M, tbl):
     for k, v in typed_labels(tbl, M["labels"]).items():
         labels[k], types[k] = prepare_label(v)
     name = CUR["names"][i]
+    args, kwargs = call_args(M)
     return broker.formatter.dumps(TaskiqMessage(task_id="id%d" % M["id"], task_name=name, labels=labels,
-                                                labels_types=types, args=[], kwargs={})).message
+                                                labels_types=types, args=args, kwargs=kwargs)).message
 
 
 # taskiq.labels.LabelType as every released client writes it (the harness' own table: the wire form of a message that is
@@ -1044,6 +1292,7 @@ async def wire_payload(broker, i, M, tbl):
     tid_ = "id%d" % M["id"]
     typed = w.get("typed") or {}
     ghost = [(k, t) for k, t in w.get("ghost") or []]
+    args, kwargs = call_args(M)
     if w["via"] == "kicker":
         wb = WireBroker()
         if w.get("cfmt") == "json":
@@ -1051,7 +1300,7 @@ async def wire_payload(broker, i, M, tbl):
         wb.add_middlewares(make_stamp(w, {k: v for k, v in D.items() if k not in typed}, [k for k, _ in ghost]))
         labels = {k: v for k, v in D.items() if k in typed}
         labels.update({k: GHOST_VALUE[t] for k, t in ghost})      # typed by the kicker, removed by the middleware
-        await AsyncKicker(name, wb, {}).with_task_id(tid_).with_labels(**labels).kiq()
+        await AsyncKicker(name, wb, {}).with_task_id(tid_).with_labels(**labels).kiq(*args, **kwargs)
         assert len(wb.sent) == 1, "harness: kiq did not hand exactly one message to broker.kick"
         return wb.sent[0].message
     labels, types = {}, {}
@@ -1074,10 +1323,10 @@ async def wire_payload(broker, i, M, tbl):
     assert lt is not None or not types, "scenario: typed label without labels_types"
     if w["via"] == "model":
         fmt = JSONFormatter() if w.get("cfmt") == "json" else ProxyFormatter(broker)
-        return fmt.dumps(TaskiqMessage(task_id=tid_, task_name=name, labels=labels, labels_types=lt, args=[],
-                                       kwargs={})).message
+        return fmt.dumps(TaskiqMessage(task_id=tid_, task_name=name, labels=labels, labels_types=lt, args=args,
+                                       kwargs=kwargs)).message
     assert w["via"] == "raw", "scenario: unknown via %r" % (w["via"],)
-    d = dict(task_id=tid_, task_name=name, labels=labels, labels_types=lt, args=[], kwargs={})
+    d = dict(task_id=tid_, task_name=name, labels=labels, labels_types=lt, args=args, kwargs=kwargs)
     if w["lt"] == "omit":
         del d["labels_types"]
     d.update(w.get("top") or {})
@@ -1365,6 +1614,11 @@ def run_recv(case):
             kw = dict(_CLI["kw"])
             kw["max_async_tasks"] = None
             recv = Receiver(broker, executor=ex, run_startup=False, **kw)
+        elif case.get("no_parse"):
+            # parameter validation switched off (what --no-parse does)
+            recv = Receiver(broker, executor=ex, max_async_tasks=None, run_startup=False, validate_params=False,
+                            propagate_exceptions=case["propagate"],
+                            ack_type=AcknowledgeType(at) if at else None)
         else:
             recv = Receiver(broker, executor=ex, max_async_tasks=None, run_startup=False,
                             propagate_exceptions=case["propagate"],
@@ -1414,6 +1668,7 @@ def run_recv(case):
         await drain_inflight()
         # let detached sync bodies (timed-out executor futures) finish so that their end is in the log
         await loop.drain_threads()
+        CUR["got_snapshot"] = sorted(CUR.get("got", []), key=lambda g: g[0])
         return list(LOG), loop.time_us(), list(CUR.get("life_log", []))     # snapshot before the loop is torn down
 
     cli_kw = None
@@ -1431,7 +1686,7 @@ def run_recv(case):
         time_mod.time = real_time
         if lst is not None:
             logging_off(lst)
-    return {"log": lg, "end_us": end, "life": lf}
+    return {"log": lg, "end_us": end, "life": lf, "got": CUR.get("got_snapshot", [])}
 
 
 # ------------------------------------------------------------------------------------- send side
